@@ -52,6 +52,9 @@ func ExtKinds() []BSpec {
 		{Kind: "dtlsr", S: []string{"dtn://me/"}, N: []uint64{77}},
 		{Kind: "dtlsr", S: []string{"dtn://me/", "ipn:3.4"}, N: []uint64{1 << 40, 255}},
 		{Kind: "dtlsr", S: []string{"dtn://me/", "ipn:3.4", "dtn://z/"}, N: []uint64{9, 0, 256}},
+		// an anonymous neighbour (dtn:none) as peer / as predictability entry
+		{Kind: "dtlsr", S: []string{"dtn://me/", "dtn:none"}, N: []uint64{5, 0}},
+		{Kind: "prophet", S: []string{"dtn:none"}, F: []uint64{0x3fe0000000000000}},
 		{Kind: "prophet"},
 		{Kind: "prophet", S: []string{"dtn://p/"}, F: []uint64{0x3fe8000000000000}},
 		{Kind: "prophet", S: []string{"dtn://p/", "dtn://q/"}, F: []uint64{1, 0x3ff0000000000000}},
